@@ -42,6 +42,7 @@ def _sched_worker(args):
             info['states_seen'] = r.states_seen
             info['final_state'] = r.final_state
             info['final_events_n'] = len(r.final_events or [])
+            info['init_events'] = r.init_events
             outs = []
             for p in r.procs:
                 outs.append({'kind': p.kind, 'rc': p.rc, 'state': p.state, 'stdout': p.out.decode('utf-8', 'replace')[:4000],
@@ -164,7 +165,7 @@ def sched_check(ctx, n, kw, monitor, tags=('SchedOutcome', 'SchedFinalLog', 'Sch
 def mon_sched_common(info):
     out = []
     for pv in info.get('protocol', []):
-        out.append(('multi_write_section' if pv[0] == 'second_write_in_section' else 'multi_section_command', pv[1]))
+        out.append(({'second_write_in_section': 'multi_write_section', 'second_section_in_command': 'multi_section_command'}.get(pv[0], pv[0]), pv[1]))
     fs = info.get('final_snapshot')
     if any(info['post'].get(k, 0) != 0 for k in ('list_rc', 'new_rc', 'list2_rc', 'compact_rc', 'plan_rc', 'list3_rc')) or not info['post']['new_visible']:
         out.append(('store_unusable_after_run', info['post']))
@@ -172,9 +173,12 @@ def mon_sched_common(info):
         out.append(('final_store_unreadable',))
         return out
     # acknowledged appends are still there (unless a compaction ran)
-    compacted = any((o['req'] or {}).get('k') == 'compact' and o['rc'] == 0 for o in info['outs'])
+    compacted = any((o['req'] or {}).get('k') == 'compact' and o['state'] in ('done', 'dead', 'unlock') for o in info['outs'])
     if not compacted:
         finals = fs['events']
+        init = info.get('init_events') or []
+        if finals[:len(init)] != init:
+            out.append(('recorded_history_lost', len(init), len(finals)))
         for o in info['outs']:
             if o['kind'] == 'w' and o['rc'] == 0 and o['appended']:
                 for e in o['appended']:
@@ -774,7 +778,44 @@ def json_surface(ctx):
         rpc.close()
 
 
+def legacy_store_races(ctx):
+    """A legacy-only store (events.jsonl): a writer that has resolved the log path and is about to take
+    the lock, while compact / prune / init run to completion: its acknowledged write must stay visible to
+    every later command, however the directory is spelled."""
+    import sched
+    n = 0
+    for other in (['compact'], ['prune', '--yes'], ['init'], ['--json', 'new', 'task']):
+        st = Store()
+        try:
+            st.run(['new', 'task'], stdin=b'{"title":"old item","state":"done"}')
+            st.run(['new', 'task'], stdin=b'{"title":"old two"}')
+            os.rename(st.log, os.path.join(st.ergodir, 'events.jsonl'))
+            ctl = sched.Controller(st)
+            try:
+                p = ctl.launch('w', {'k': 'new'}, ['--json', 'new', 'task'], b'{"title":"written during the race"}', 'lock.attempt')
+                st.run(other, stdin=b'{"title":"other"}' if other[-1] == 'task' else None)
+                while p.at is not None:
+                    ctl.release(p)
+                n += 1
+                if p.rc == 0:
+                    for spelling in (None, '.', st.dir, '.ergo'):
+                        args = (['--dir', spelling] if spelling else []) + ['--json', 'list', '--all']
+                        rc, out, err = st.run(args)
+                        titles = [t['title'] for t in json.loads(out)] if rc == 0 else None
+                        if titles is None or 'written during the race' not in titles:
+                            ctx.violations.append(('monitor', 'legacy store: a write acknowledged while `%s` ran is invisible afterwards (--dir %s)' % (' '.join(other), spelling),
+                                                   {'kind': 'schedule', 'commands': ['store with only events.jsonl', 'new task parked at lock.attempt', ' '.join(other), 'resume', 'list --all'],
+                                                    'files': sorted(os.listdir(st.ergodir)), 'shown': titles}))
+                            break
+            finally:
+                ctl.close()
+        finally:
+            st.close()
+    ctx.cov['legacy_store_races'] = n
+
+
 def check_C18(ctx):
+    legacy_store_races(ctx)
     p = run_script(ctx, 'difftest_path.py', [1500 if ctx.quick() else 8000, ctx.seed], 'path_difftest')
     if p.returncode != 0:
         ctx.violations.append(('mismatch', 'path model (Clean/Dir/Base/Join) disagrees with Go', {'kind': 'path', 'output': (p.stdout + p.stderr)[-3000:]}))
@@ -1550,6 +1591,35 @@ def long_text_roundtrip(ctx):
                     got = json.loads(st.run(['--json', 'show', i])[1])['body']
                     if rc == 0 and got != 'b' + body:
                         bad.append(('roundtrip_boundary_set', mode, repr(ch)))
+        # whitespace-edged texts through every mode x {create, set} x {task, epic}: bodies are never trimmed, titles only by flags / set
+        edges = [' lead', 'trail ', '\ttab lead', 'final newline\n', '\n\nblank lines first', '  two  ', 'nbsp\u00a0', '\u3000ideographic lead', 'x\r\n']
+        for txt in edges:
+            for kind in ('task', 'epic'):
+                for cmode in ('json', 'flags', 'stdin'):
+                    r = history.Req(k='new', epic=(kind == 'epic'), mode=cmode, fields={'title': 'T', 'body': txt}, agent=None)
+                    args, stdin = history.req_cli(r)
+                    rc, out, err = st.run(args, stdin=stdin)
+                    n += 1
+                    if rc != 0:
+                        continue
+                    i = json.loads(out)['id']
+                    shown = json.loads(st.run(['--json', 'show', i])[1])
+                    got = (shown.get('epic') or shown)['body'] if isinstance(shown, dict) and 'epic' in shown and isinstance(shown['epic'], dict) else shown['body']
+                    if got != txt:
+                        bad.append(('body_edge_create', kind, cmode, repr(txt), repr(got)))
+                    for smode in ('json', 'flags', 'stdin'):
+                        txt2 = txt + '!' if not txt.endswith(('\n', ' ')) else '!' + txt
+                        txt2 = txt[::-1] if txt[::-1].strip() else txt
+                        r2 = history.Req(k='set', epic=False, id=i, mode=smode, fields={'body': txt2}, agent=None)
+                        args, stdin = history.req_cli(r2)
+                        rc, out, err = st.run(args, stdin=stdin)
+                        n += 1
+                        if rc != 0:
+                            continue
+                        shown = json.loads(st.run(['--json', 'show', i])[1])
+                        got = shown['epic']['body'] if 'epic' in shown and isinstance(shown['epic'], dict) else shown['body']
+                        if got != txt2:
+                            bad.append(('body_edge_set', kind, smode, repr(txt2), repr(got)))
         ctx.cov['long_text_cases'] = n
         for b in bad:
             ctx.violations.append(('monitor', 'text did not come back as it went in: %s' % (b,), {'kind': 'text', 'case': b}))
